@@ -186,6 +186,17 @@ func c05Gen(tier string, seed int64) []core.Case {
 			k++
 		}
 	}
+	// full replay: the deviator replays, for every message type, what one other participant sends (commitment, opening and
+	// proof together). Also in a committee of 257 signers, where the deviator's index and the copied party's index differ by 256.
+	for _, sc := range append(faultSessions(tier), sessCfg{"eddsa-signing", 257, 1, seqInts(257), 0, 0, "dealt", 4}) {
+		if !strings.HasSuffix(sc.proto, "signing") && !strings.HasSuffix(sc.proto, "keygen") {
+			continue
+		}
+		p := sc.P()
+		p["fpos"] = "high"
+		id := fmt.Sprintf("%s/n=%d/replay-everything-of-the-first-party@high", sc.proto, sc.n)
+		cs = append(cs, core.Case{ID: id, Class: id, Kind: "replay-all", P: p, Cost: sc.cost})
+	}
 	for _, sc := range smallFaultSessions() {
 		for fiI, fi := range staticFields[sc.proto] {
 			ix := ""
@@ -267,6 +278,9 @@ func c05Run(c core.Case, env *core.Env) core.Result {
 	case "weak":
 		fr, err = runWeakParams(s, c.P.Str("fpos"), c.P.Str("weak"))
 		f = faultSpec{Type: "(pre-parameters)", Field: c.P.Str("weak"), How: "weak-params", Pos: c.P.Str("fpos")}
+	case "replay-all":
+		fr, err = runReplayAll(s, c.P.Str("fpos"))
+		f = faultSpec{Type: "(every type)", Field: "*", How: "replay-all", Pos: c.P.Str("fpos")}
 	case "wrong-secret":
 		fr, err = runWrongSecret(s, c.P.Str("fpos"))
 		f = faultSpec{Type: "(input)", Field: "Xi", How: "wrong-secret", Pos: c.P.Str("fpos")}
@@ -567,4 +581,80 @@ func (s *session) curveCount(role string, w *sim.World) int {
 		}
 	}
 	return n
+}
+
+func seqInts(n int) []int {
+	out := make([]int, n)
+	for i := range out {
+		out[i] = i
+	}
+	return out
+}
+
+// runReplayAll: the deviator sends, for every message type, the bytes the first other participant sent for that type (to
+// the same recipient for point-to-point types), under its own sender identity.
+func runReplayAll(s *session, pos string) (*faultRun, error) {
+	w, in, err := s.make(s.env.Seed + 29)
+	if err != nil {
+		return nil, err
+	}
+	fr := &faultRun{w: w, in: in, s: s}
+	fr.dev = pickDeviator(w, "all", pos)
+	fr.dev.Deviator = true
+	var donor *sim.Node
+	for _, n := range w.Nodes {
+		if n != fr.dev {
+			donor = n
+			break
+		}
+	}
+	find := func(m *sim.Msg, to *sim.Node) *sim.Msg {
+		var any *sim.Msg
+		for _, o := range w.Msgs {
+			if o.From != donor || o.Short != m.Short {
+				continue
+			}
+			if any == nil {
+				any = o
+			}
+			for _, rc := range o.Recips {
+				if rc == to {
+					return o
+				}
+			}
+		}
+		return any
+	}
+	// In a very large committee every party that reaches the proof-checking round verifies one proof per peer (seconds of
+	// curve arithmetic each): only a few observed parties receive the messages of round 2 and later, the others are slow.
+	observed := map[*sim.Node]bool{}
+	if len(w.Nodes) > 32 {
+		for _, n := range w.Nodes {
+			if n != fr.dev && n != donor && len(observed) < 3 {
+				observed[n] = true
+			}
+		}
+	}
+	w.Hold = func(w *sim.World, m *sim.Msg) bool { return m.From == fr.dev && find(m, nil) == nil }
+	w.Rewrite = func(w *sim.World, m *sim.Msg, to *sim.Node) ([]byte, bool, *tss.PartyID, bool) {
+		if len(observed) > 0 && !observed[to] {
+			if sp := sim.SpecOf(w.Proto, m.Short); sp != nil && sp.Round >= 2 {
+				return nil, false, nil, true
+			}
+		}
+		if m.From != fr.dev {
+			return m.Wire, m.Bcast, m.From.PID, false
+		}
+		if to == donor && !m.Bcast {
+			// the donor has no message to itself; it gets the deviator's genuine one
+			return m.Wire, m.Bcast, m.From.PID, false
+		}
+		if d := find(m, to); d != nil {
+			fr.applied++
+			return d.Wire, m.Bcast, m.From.PID, false
+		}
+		return m.Wire, m.Bcast, m.From.PID, false
+	}
+	w.Run(sim.StartsThen(sim.FIFO), nil)
+	return fr, nil
 }
